@@ -26,18 +26,18 @@ def CallEffect (clock : Int) (c : Call) (j a : JobV) : Prop :=
    (c.verb = "reject" ∧ j.hasPolicy = true ∧ j.policy = 1 ∧ due j clock ∧ a.admErr = true ∧
       a.startTime = none))
 
-theorem Inv_applyReject {s : Sys} (h : Inv s) {j cur : JobV} (hj : j ∈ s.jobCache)
+theorem Inv_applyReject {s : Sys} (h : Inv s) {j cur : JobV} (m : String × Int) (hj : j ∈ s.jobCache)
     (hq : j.isQueued = true) (hf : findJob s.jobs j.name = some cur) (hrv : cur.rv = j.rv) :
-    cur = j ∧ Inv (applyWrite s "reject" j.name (rejectedJob s j cur)) := by
+    cur = j ∧ Inv (applyWrite s "reject" j.name (rejectedJob s m j cur)) := by
   have hcj : cur = j := h.cached_eq_cur hj hf hrv
   subst hcj
   refine ⟨rfl, ?_⟩
   obtain ⟨hst, hterm⟩ := (isQueued_iff cur).mp hq
-  refine Inv_update (cur := cur) (nj := { rejectF cur cur with rv := s.rv + 1 }) h hf ?_ rfl
+  refine Inv_update (cur := cur) (nj := { rejectF m cur cur with rv := s.rv + 1 }) h hf ?_ rfl
     (fun hx => hx) rfl rfl rfl rfl rfl rfl ?_ rfl (fun f hf => List.mem_of_mem_tail hf)
   · simp [sameSpec, rejectF]
   · intro uid
-    have : bonus cur { rejectF cur cur with rv := s.rv + 1 } = 0 := by
+    have : bonus cur { rejectF m cur cur with rv := s.rv + 1 } = 0 := by
       simp only [bonus, rejectF, JobV.isActive, JobV.isStarted] at hst ⊢
       simp [hst]
     simp [this, applyWrite]
@@ -64,12 +64,12 @@ theorem Inv_applyStart {s : Sys} (h : Inv s) {jc : JCV} {j cur : JobV} {ac : Int
     · subst_vars; rfl
     · simp
 
-theorem Exact_applyReject {s : Sys} (h : Inv s) (he : Exact s) {j : JobV}
+theorem Exact_applyReject {s : Sys} (h : Inv s) (he : Exact s) {j : JobV} (m : String × Int)
     (hf : findJob s.jobs j.name = some j) :
-    Exact (applyWrite s "reject" j.name (rejectedJob s j j)) := by
+    Exact (applyWrite s "reject" j.name (rejectedJob s m j j)) := by
   intro uid
-  have h1 := actCount_setJob (j := rejectedJob s j j) uid h.jobsNodup hf
-  have h2 : actInd (rejectedJob s j j) uid = actInd j uid := rfl
+  have h1 := actCount_setJob (j := rejectedJob s m j j) uid h.jobsNodup hf
+  have h2 : actInd (rejectedJob s m j j) uid = actInd j uid := rfl
   have := he uid
   simp only [applyWrite]
   omega
@@ -127,18 +127,19 @@ theorem Pass.sys {jc : JCV} {rjs : List JobV} {s : Sys} {ac : Int} {cs : List Ca
     intro c hc hok; simp only [List.mem_singleton] at hc; subst hc; exact absurd hok hres
   | @rejectOk j rest s ac cs s' ok cur hp hl hpol hlim hf hrv hnb hna hpass ih =>
     obtain ⟨hjc, hjl, hjq⟩ := hq j (by simp)
-    obtain ⟨hcj, hinv1⟩ := Inv_applyReject hinv hjc hjq hf hrv
+    obtain ⟨hcj, hinv1⟩ := Inv_applyReject hinv (rejMsg jc ac) hjc hjq hf hrv
     subst hcj
     obtain ⟨hst, hterm⟩ := (isQueued_iff cur).mp hjq
     have hnd' : (names rest).Nodup := (List.nodup_cons.mp hnd).2
     have hnotin : cur.name ∉ names rest := (List.nodup_cons.mp hnd).1
     obtain ⟨i1, i2, i3, i4⟩ := ih hinv1 (fun x hx => hq x (by simp [hx])) hnd'
     have hframe : ∀ n, n ≠ cur.name →
-        findJob (applyWrite s "reject" cur.name (rejectedJob s cur cur)).jobs n = findJob s.jobs n := by
+        findJob (applyWrite s "reject" cur.name (rejectedJob s (rejMsg jc ac) cur cur)).jobs n =
+          findJob s.jobs n := by
       intro n hn
       simp only [applyWrite, findJob_setJob]
       rw [if_neg]; exact fun hx => hn hx.symm
-    refine ⟨i1, fun he => i2 (Exact_applyReject hinv he hf), ?_, ?_⟩
+    refine ⟨i1, fun he => i2 (Exact_applyReject hinv he _ hf), ?_, ?_⟩
     · intro n hn
       have hn1 : n ≠ cur.name := fun hx => hn (by simp [names, hx])
       have hn2 : n ∉ names rest := fun hm => hn (by simp [names] at hm ⊢; exact Or.inr hm)
@@ -146,7 +147,7 @@ theorem Pass.sys {jc : JCV} {rjs : List JobV} {s : Sys} {ac : Int} {cs : List Ca
     · intro c hc hok
       rcases List.mem_cons.mp hc with rfl | hc
       · refine ⟨cur, by simp, rfl, hf, ?_⟩
-        have : findJob s'.jobs cur.name = some (rejectedJob s cur cur) := by
+        have : findJob s'.jobs cur.name = some (rejectedJob s (rejMsg jc ac) cur cur) := by
           rw [i3 cur.name hnotin]
           simp only [applyWrite, findJob_setJob]
           rw [if_pos]; rfl
@@ -161,6 +162,33 @@ theorem Pass.sys {jc : JCV} {rjs : List JobV} {s : Sys} {ac : Int} {cs : List Ca
           simp only [names, List.mem_map]; exact ⟨x, hx, he⟩)
         exact ⟨x, by simp [hx], hxn, by rw [← hframe x.name hxne]; exact hxf, a, ha, hce⟩
   | @rejectLost j rest s ac cur hp hl hpol hlim hf hrv hnb hna =>
+    exact absurd hna hinv.nextFault_ne_applied
+  | @rejectNoop j rest s ac cs s' ok cur hp hl hpol hlim hf hrv hnb hna hnoop hpass ih =>
+    obtain ⟨hjc, hjl, hjq⟩ := hq j (by simp)
+    have hcj : cur = j := hinv.cached_eq_cur hjc hf hrv
+    subst hcj
+    have hinv1 : Inv (failWrite s "reject" cur.name "ok") :=
+      Inv_failWrite hinv "reject" cur.name "ok" s.counter (fun _ => rfl)
+    obtain ⟨hst, hterm⟩ := (isQueued_iff cur).mp hjq
+    have hnd' : (names rest).Nodup := (List.nodup_cons.mp hnd).2
+    have hnotin : cur.name ∉ names rest := (List.nodup_cons.mp hnd).1
+    obtain ⟨i1, i2, i3, i4⟩ := ih hinv1 (fun x hx => hq x (by simp [hx])) hnd'
+    refine ⟨i1, fun he => i2 he, ?_, ?_⟩
+    · intro n hn
+      have hn2 : n ∉ names rest := fun hm => hn (by simp [names] at hm ⊢; exact Or.inr hm)
+      rw [i3 n hn2]; rfl
+    · intro c hc hok
+      rcases List.mem_cons.mp hc with rfl | hc
+      · refine ⟨cur, by simp, rfl, hf, ?_⟩
+        have : findJob s'.jobs cur.name = some cur := by
+          rw [i3 cur.name hnotin]; exact hf
+        refine ⟨_, this, ?_, hterm, Or.inr ⟨rfl, hp, hpol, ?_, rejectF_fix_admErr hnoop, ?_⟩⟩
+        · simp [sameSpec]
+        · exact fun hx => by simp [hl] at hx
+        · simpa [JobV.isStarted] using hst
+      · obtain ⟨x, hx, hxn, hxf, a, ha, hce⟩ := i4 c hc hok
+        exact ⟨x, by simp [hx], hxn, hxf, a, ha, hce⟩
+  | @rejectNoopLost j rest s ac cur hp hl hpol hlim hf hrv hnb hna hnoop =>
     exact absurd hna hinv.nextFault_ne_applied
   | @casFail j rest s ac hv hne =>
     exact ⟨hinv, id, fun _ _ => rfl, by simp⟩
